@@ -808,7 +808,7 @@ func Gen(w io.Writer, mode string, seed int64, n int) error {
 				t.Kids = append(t.Kids, dup)
 			}
 		}
-		if !wide && rng.Intn(200) == 0 { // the whole tree at the bottom of a chain that passes level 99 and 100
+		if mode == "c07" && !wide && rng.Intn(200) == 0 { // (deep equality only) the whole tree at the bottom of a chain that passes level 99 and 100
 			for lv, m := 0, 98+rng.Intn(8); lv < m; lv++ {
 				t = ANode{T: "NOTE", V: fmt.Sprintf("l%d", lv%3), X: json.RawMessage(`{"k":"plain"}`), Kids: []ANode{t}}
 			}
